@@ -253,15 +253,23 @@ def subTagRange : Tag R → Option (Nat × Nat)
   | .math _ off endOff => some (off, endOff)
   | _ => none
 
-/-- the sub tag sits inside the value of `true` or inside the value of `false` -/
-def insideValues (f : IifFields) (t : Tag R) : Bool :=
+/-- the sub tag number `i` sits inside the value it is rendered with: the first `id` sub tags belong
+to the value that comes first (`true` when `TrueOffset < FalseOffset`) -/
+def insideRole (f : IifFields) (id i : Nat) (t : Tag R) : Bool :=
   match subTagRange t with
   | none => false
   | some (s, e) =>
     let tS := f.off + f.trueOff
     let fS := f.off + f.falseOff
+    let inTrue := decide (i < id) == decide (f.trueOff < f.falseOff)
     decide (s ≤ e) &&
-      ((decide (tS ≤ s) && decide (e ≤ tS + f.trueLen)) || (decide (fS ≤ s) && decide (e ≤ fS + f.falseLen)))
+      (if inTrue then decide (tS ≤ s) && decide (e ≤ tS + f.trueLen)
+       else decide (fS ≤ s) && decide (e ≤ fS + f.falseLen))
+
+/-- `insideRole` of every sub tag, numbered from `i` -/
+def allRole (f : IifFields) (id : Nat) : Nat → List (Tag R) → Bool
+  | _, [] => true
+  | i, t :: rest => insideRole f id i t && allRole f id (i + 1) rest
 
 /-- the `while (s_tag < s_tag_end)` loop: `(id, skip)` -/
 def startIdScan (firstOffset : Nat) : List (Tag R) → Nat → Nat × Bool
@@ -287,9 +295,10 @@ def closeIif (c : List Nat) (st : PState R) (pre : List (Tag R)) (cs : List (Ite
   if f.trueOff ≠ 0 ∨ f.falseOff ≠ 0 then
     let firstOffset := (if f.trueOff < f.falseOff then f.falseOff else f.trueOff) + f.off
     let (id, skip) := startIdScan firstOffset sub 0
-    -- bc59b89: when the tag is final, every sub tag has to lie inside the value of `true` or of
-    -- `false` (and be a var / raw / math tag); otherwise the inline-if is dropped
-    let outside := !skip && !sc.repush && !(sub.all (insideValues f))
+    -- bc59b89 + the role-aware repair: when the tag is final, every sub tag has to be a var / raw /
+    -- math tag inside the value it will be rendered with, and the two offsets must differ (equal
+    -- offsets: the 16-bit fields wrapped); otherwise the inline-if is dropped
+    let outside := !skip && !sc.repush && !(decide (f.trueOff ≠ f.falseOff) && allRole f id 0 sub)
     if skip then
       -- `storage->Drop(1)`: the current storage loses its last element
       if sc.repush then
